@@ -13,7 +13,8 @@ RULE = ('Hypothesis draws (a) doubles by bit pattern: uniform over sign x expone
         'and through XPath string()/number()/round()/floor()/ceiling() and numeric literals; oracle = exact arithmetic in Python '
         '(float() is correctly rounded; fractions.Fraction for rounding). Non-trivial: |x| outside [1e-5,1e15] or a boundary-class '
         'double; for strings: a numeral with whitespace, >=10 characters or >17 significant digits, or a near-valid non-numeral. '
-        'distinct = distinct canonical case text.')
+        'distinct = distinct canonical case text.'
+        ' string() is also applied to a COMPUTED number ($v * 1) after other numbers have been computed, converted and released on the same execution context.')
 ASSUMPTIONS = ['CPython float()/repr() are correctly rounded (IEEE 754 double)',
                'the driver passes doubles by bit pattern, so no conversion of its own is involved']
 
